@@ -131,6 +131,9 @@ SolveOp(b, vl, tr, fn, own, rf) ==
         noFunction == BlockInfo[b].func /\ fn = NoFunc               \* NameError in the first step
         good       == complete /\ ~traceFails /\ ~noFunction
     IN [varList |-> used,
+        started |-> IF ~complete \/ noFunction THEN 1                 \* periods begun: the first one already fails,
+                    ELSE IF traceFails THEN tr                         \* the traced one fails,
+                    ELSE BlockInfo[b].horizon,                         \* all
         series  |-> [keys |-> keys,
                      full |-> good /\ keys = SeriesKeys(b),
                      ok   |-> good,
@@ -239,7 +242,7 @@ DoSolve(s, name) ==
        /\ solved' = [solved EXCEPT ![s] = TRUE]
        /\ nK' = [nK EXCEPT ![s] = @ + 1]        \* SetInitialConditions appends ('k', ..) every time
        /\ logs' = LET l1 == Touch(logs, "log")
-                  IN IF traceStep[s] \in 1..BlockInfo[block[s]].horizon THEN Touch(l1, "step") ELSE l1
+                  IN IF traceStep[s] \in 1..r.started THEN Touch(l1, "step") ELSE l1     \* the traced period was begun
        /\ Note(name, s, block[s], 0)
        /\ rhsFrom' = [rhsFrom EXCEPT ![s] = r.series.eqs]
        /\ UNCHANGED << nextId, mvars, block, func, reg, parses, traceStep >>
